@@ -209,7 +209,7 @@ def run(ctx):
         longs += [10000, 20000, 65536, 131072]
     for li, ln in enumerate(longs):
         n += 1
-        if not ctx.mine(n):
+        if not ctx.mine_once(n):
             continue
         pats = [b"\xff" * ln, b"\x80" + b"\x00" * (ln - 1), b"\x01" + b"\x00" * (ln - 1), b"\x00" * 3 + b"\xff" * (ln - 3), gen.rbytes(rnd, ln),
                 gen.rbytes(rnd, ln)]
